@@ -169,7 +169,7 @@ PROPS["C14"] = dict(_QUERY_COMMON,
     rule="for a generated (data, SELECT without LIMIT / FILTER) the multiset of rows - the sequence when ORDER BY lists every output column - must be identical across: 4 re-executions under "
          "other tapes (driver completion order, emission order, pacing, chanSize, bulkSize, processor count, memoization, map iteration seed), a consistent renaming of all bindings, the "
          "data partitioned over 2 and 3 FROM graphs, two random permutations of the clauses (when none is OPTIONAL); and the result over a superset of the data contains the result "
-         "(no OPTIONAL / aggregate). evaluations = executed variants; non-trivial: non-empty base result; distinct = distinct (query, data)")
+         "(no OPTIONAL / aggregate). 12% of the cases use a clause whose time bounds are bindings bound by an earlier clause (every row has its own window). evaluations = executed variants; non-trivial: non-empty base result; distinct = distinct (query, data)")
 
 PROPS["C04"] = dict(_QUERY_COMMON,
     components_stub=["simulated storage driver, fault-free, around ONE real memory store shared by the statements of a case", "seeded scheduler in a synctest bubble (one bubble per statement)",
@@ -224,7 +224,8 @@ PROPS["C18"] = dict(
          "swapped / replaced / damaged (so that semantic hooks hold partially accumulated state: a subject without predicate, a BETWEEN without its second bound, an open alias keyword). "
          "Oracle: for every statement of the history the accept / reject outcome and the canonical rendering of everything the statement means (kind, graph lists, data triples, pattern "
          "clauses with all aliases and bounds, filters, projections, GROUP BY, ORDER BY, HAVING tokens, global bounds, LIMIT, construct templates) equal those of a FRESH parser on the same "
-         "text. Non-trivial: at least one accepted statement after at least one abort; distinct = distinct histories",
+         "text. 6% of the statements are long ones (30-300 triples / graphs / clauses / HAVING terms): a fresh parser must accept them (list length is not part of the grammar; an extra beyond the claimed clause). "
+         "Non-trivial: at least one accepted statement after at least one abort; distinct = distinct histories",
     components_real=["bql/grammar parser + LLk, bql/lexer, bql/semantic hooks and Statement (real code)"],
     components_stub=["the statement history (aborted operations on a stateful object) is the injected fault sequence; no scheduler is involved"],
     assumptions=["only the second sentence of C18 (no state between statements) is addressed; the first (accepted language = grammar) is a pure recognition claim",
